@@ -5,13 +5,13 @@ package main
 // parent and workers build the identical list.
 
 import (
-	"runtime"
-	"runtime/debug"
 	"bufio"
 	"encoding/json"
 	"fmt"
 	"io"
 	"os"
+	"runtime"
+	"runtime/debug"
 	"runtime/pprof"
 	"sync"
 	"sync/atomic"
@@ -26,15 +26,15 @@ type caseResult struct {
 	Detail     string `json:"d,omitempty"`
 	Trace      any    `json:"tr,omitempty"`
 	Nontrivial bool   `json:"nt,omitempty"`
-	Key        string `json:"k,omitempty"` // identity of the case for distinct counting
-	Units      int    `json:"u,omitempty"` // sub-evaluations performed by the case
+	Key        string `json:"k,omitempty"`   // identity of the case for distinct counting
+	Units      int    `json:"u,omitempty"`   // sub-evaluations performed by the case
 	NTUnits    int    `json:"ntu,omitempty"` // of which non-trivial
 }
 
 type caseList struct {
-	N    int
-	Run  func(i int) caseResult
-	Name func(i int) string
+	N     int
+	Run   func(i int) caseResult
+	Name  func(i int) string
 	Class func(i int) string // optional: input class of case i for finding signatures
 }
 
@@ -46,22 +46,26 @@ type genTask struct {
 	// Skip: input classes in which two cases have already hung a worker; further cases of the class
 	// are not run (counted as not applicable) - every one of them would cost a watchdog period
 	Skip []string `json:"skip,omitempty"`
+	// Patience: seconds without progress after which the worker's watchdog fires (0: 20); the lone re-run
+	// that confirms a hang is given more
+	Patience int `json:"p,omitempty"`
 }
 
 type genTaskResult struct {
-	Task   genTask      `json:"t"`
-	OK     int          `json:"ok"`
-	Skip   int          `json:"skip"`
-	NT     int          `json:"nt"`
-	Units  int          `json:"units"`
-	Viol   []caseResult `json:"v"`
-	VIdx   []int        `json:"vi"`
+	Task   genTask        `json:"t"`
+	OK     int            `json:"ok"`
+	Skip   int            `json:"skip"`
+	NT     int            `json:"nt"`
+	Units  int            `json:"units"`
+	Viol   []caseResult   `json:"v"`
+	VIdx   []int          `json:"vi"`
 	VCount map[string]int `json:"vc"`
-	Died   bool         `json:"died,omitempty"`
-	Hung   *int         `json:"hung,omitempty"` // the worker's watchdog fired while running this case
+	Died   bool           `json:"died,omitempty"`
+	Hung   *int           `json:"hung,omitempty"` // the worker's watchdog fired while running this case
 }
 
 var genProgress int64
+var genPatience int64 = 20
 var genCurrent atomic.Value
 
 func genWorker(prop, tier string) {
@@ -76,8 +80,13 @@ func genWorker(prop, tier string) {
 				last, since = cur, time.Now()
 				continue
 			}
-			if time.Since(since) > 20*time.Second && atomic.LoadInt64(&workerBusy) == 1 {
-				fmt.Fprintf(os.Stderr, "WATCHDOG: case %v makes no progress for 20 s; goroutine dump follows\n", genCurrent.Load())
+			if atomic.LoadInt64(&workerBusy) != 1 {
+				// between tasks, or in the driver's own housekeeping (returning memory): not the code under test
+				since = time.Now()
+				continue
+			}
+			if pat := atomic.LoadInt64(&genPatience); time.Since(since) > time.Duration(pat)*time.Second {
+				fmt.Fprintf(os.Stderr, "WATCHDOG: case %v makes no progress for %d s; goroutine dump follows\n", genCurrent.Load(), pat)
 				pprof.Lookup("goroutine").WriteTo(os.Stderr, 2)
 				// tell the parent which case it was, so that it does not have to bisect with one
 				// watchdog period per step
@@ -100,6 +109,11 @@ func genWorker(prop, tier string) {
 			os.Exit(2)
 		}
 		out := genTaskResult{Task: t, VCount: map[string]int{}}
+		if t.Patience > 0 {
+			atomic.StoreInt64(&genPatience, int64(t.Patience))
+		} else {
+			atomic.StoreInt64(&genPatience, 20)
+		}
 		atomic.StoreInt64(&workerBusy, 1)
 		skip := map[string]bool{}
 		for _, c := range t.Skip {
@@ -112,6 +126,11 @@ func genWorker(prop, tier string) {
 				out.Skip++
 				continue
 			}
+			if f := os.Getenv("VERIF_GEN_FAKE_STALL"); f != "" && t.Patience == 0 && f == fmt.Sprint(i) {
+				// self-test of the driver: pretend the batch worker stalled at this case
+				fmt.Fprintf(protoOut, "{\"hung\":%d}\n", i)
+				os.Exit(3)
+			}
 			r := cl.Run(i)
 			atomic.AddInt64(&genProgress, 1)
 			// a case may legitimately have allocated hundreds of megabytes (SETBIT k 2147483648 1): give them back
@@ -121,7 +140,12 @@ func genWorker(prop, tier string) {
 				runtime.ReadMemStats(&ms)
 			}
 			if ms.HeapIdle-ms.HeapReleased > 1<<30 || ms.HeapAlloc > 2<<30 {
+				// the collection of a multi-gigabyte heap on a loaded machine can take longer than a watchdog
+				// period; it is the driver's time, not the case's
+				atomic.StoreInt64(&workerBusy, 0)
 				debug.FreeOSMemory()
+				atomic.AddInt64(&genProgress, 1)
+				atomic.StoreInt64(&workerBusy, 1)
 			}
 			out.Units += r.Units
 			switch r.Status {
@@ -169,6 +193,47 @@ func runGen(prop, tier string, chunk int, rep *Report) (ok, nontrivial, units in
 	hungClasses := map[string]int{}
 	deadline := time.Now().Add(tierBudget(tier))
 	expired := false
+	// confirmDied: a case whose worker died or stalled is run again, alone, in a fresh worker process with a
+	// longer watchdog period, twice; it is reported only if the lone runs die as well. (A case is one
+	// connection's command sequence under the cooperative scheduler: a hang or a fatal error of the
+	// emulator repeats; a stall of the worker itself - collector, machine load - does not.)
+	var notConfirmed int64
+	confirmDied := func(h int) {
+		confirmed := false
+		defer func() {
+			if confirmed && cl.Class != nil {
+				hungMu.Lock()
+				hungClasses[cl.Class(h)]++
+				hungMu.Unlock()
+			}
+		}()
+		for attempt := 0; attempt < 2; attempt++ {
+			wp, err := startWorker("genworker", prop, tier)
+			if err != nil {
+				break
+			}
+			js, _ := json.Marshal(genTask{From: h, To: h + 1, Patience: 120})
+			wp.in.Write(append(js, '\n'))
+			line, err := wp.out.ReadBytes('\n')
+			var r genTaskResult
+			if err == nil {
+				err = json.Unmarshal(line, &r)
+			}
+			good := err == nil && r.Hung == nil
+			if good {
+				wp.in.Close()
+				wp.cmd.Wait()
+				atomic.AddInt64(&notConfirmed, 1)
+				fmt.Fprintf(os.Stderr, "case %d: the worker died or stalled in the batch, the lone re-run completes: not reported\n", h)
+				results <- r
+				return
+			}
+			wp.cmd.Process.Kill()
+			wp.cmd.Wait()
+		}
+		confirmed = true
+		results <- genTaskResult{Task: genTask{From: h, To: h + 1}, Died: true, VCount: map[string]int{}}
+	}
 	var wg sync.WaitGroup
 	for w := 0; w < numWorkers(); w++ {
 		wg.Add(1)
@@ -207,15 +272,10 @@ func runGen(prop, tier string, chunk int, rep *Report) (ok, nontrivial, units in
 					if err == nil && r.Hung != nil {
 						// the worker named the case that hangs: record it, run the rest of the task
 						h := *r.Hung
-						if cl.Class != nil {
-							hungMu.Lock()
-							hungClasses[cl.Class(h)]++
-							hungMu.Unlock()
-						}
 						wp.cmd.Process.Kill()
 						wp.cmd.Wait()
 						wp, _ = startWorker("genworker", prop, tier)
-						results <- genTaskResult{Task: genTask{From: h, To: h + 1}, Died: true, VCount: map[string]int{}}
+						confirmDied(h)
 						if h > cur.From {
 							pending = append(pending, genTask{From: cur.From, To: h})
 						}
@@ -229,7 +289,7 @@ func runGen(prop, tier string, chunk int, rep *Report) (ok, nontrivial, units in
 						wp.cmd.Wait()
 						wp, _ = startWorker("genworker", prop, tier)
 						if cur.To-cur.From <= 1 {
-							results <- genTaskResult{Task: cur, Died: true, VCount: map[string]int{}}
+							confirmDied(cur.From)
 						} else {
 							mid := (cur.From + cur.To) / 2
 							pending = append(pending, genTask{From: cur.From, To: mid}, genTask{From: mid, To: cur.To})
@@ -269,5 +329,6 @@ func runGen(prop, tier string, chunk int, rep *Report) (ok, nontrivial, units in
 	}
 	rep.Coverage["exhaustive"] = !expired
 	rep.Coverage["cases_not_applicable"] = skip
+	rep.Coverage["worker_stalls_not_confirmed_by_lone_rerun"] = atomic.LoadInt64(&notConfirmed)
 	return
 }
